@@ -1,4 +1,4 @@
-import MpVerif.C13.LemmasMore
+import MpVerif.C13.LemmasInt
 /-!
 # C13 — piecewise-linear approximations: what is proved
 
@@ -171,6 +171,31 @@ theorem C13_periodic_cover (sq : Rat → Rat) (f : Fn) (d : Dom) (res : Res) (bp
       · simp only [fsub, exactOps, id]; exact h3
       · simp only [fsub, exactOps, id]; exact h4
     · exact (throw_ne_ok h).elim
+
+/-! ## integer arguments -/
+
+/-- **Exactness at the integers** (exact arithmetic): the point list built by the integrality shortcut of
+`ConsiderIntegrality` — `AddPoint(x0+k, f(x0+k))` for `k = 0 … N-1`, *including* `AddPoint`'s rule that merges
+runs of equal ordinates — represents `f` exactly at every integer `x0 + j`, `j < N`: the piecewise-linear
+function through the stored points takes the value `f(x0+j)` there. -/
+theorem C13_int_exact (sq : Rat → Rat) (f : Fn) (x0 : Rat) (N : Nat) (r : PL)
+    (h : intPoints (exactOps sq) f x0 N 0 [] = .ok r) (j : Nat) (hj : j < N) :
+    ∃ v, f.eval (x0 + (j : Rat)) = .fin v ∧ plEvalR r (x0 + (j : Rat)) = v := by
+  match N, h, hj with
+  | n + 1, h, hj =>
+    unfold intPoints at h
+    obtain ⟨y, hy, h⟩ := bind_ok h
+    have hx : fadd (exactOps sq) x0 ((0 : Nat) : Rat) = x0 + ((0 : Nat) : Rat) := rfl
+    rw [hx] at h hy
+    have hev : f.eval (x0 + ((0 : Nat) : Rat)) = .fin y := by
+      unfold getFin at hy
+      split at hy
+      · have := pure_ok hy; subst this; assumption
+      · exact (throw_ne_ok hy).elim
+      · exact (throw_ne_ok hy).elim
+    have hI := intPoints_invI sq f x0 n 0 _ r (invI_base (sq := sq) f x0 y hev) h
+    obtain ⟨_, _, _, _, _, _, hall⟩ := hI
+    exact hall j (by omega)
 
 /-! ## the validator run on every output of the real code -/
 
